@@ -17,6 +17,7 @@ T = {
  "C12": ("generated item lists/concurrency/outcomes/interleavings with an item-level ledger oracle", "With-items task driven under generated interleavings with pause/resume/cancel; item ledger checks once/in order/window/value/result order/iff-succeeded.", "item RUNNING is reported at dispatch, atomically with the poll"),
  "C13": ("generated retry policies/commands x per-attempt outcome sequences; engine's retry decisions validated against a reference model + state-diff oracle per retried attempt", "Every observed retry must be allowed by the model (count, condition, workflow active); delays checked on offers; the retrying call may not publish, create records, stage successors or change status; later offers justified by the due ledger.", "upper-bound reading of the statement (declined retries are counted, not alarmed)"),
  "C14": ("generated definitions vs independent reference graph construction + metamorphic declaration-order permutations + serialisation round trip", "Composer output compared as sets of nodes/edges/keys/attributes with a reference built from the IR; every or 7 sampled permutations of the declaration order; round trip.", "the `splits` node attribute is not part of the statement and not compared"),
+ "C15": ("stateful generation over accepted definitions with an exception oracle + single-fault mutation of accepted definitions with an inspection-report oracle", "Soundness: any exception escaping a conductor API call on a generated legal history of an accepted definition is a violation. Completeness: every planted fault (class x position x reference form) must be reported by inspect() at its site.", "documented rejections of status requests are not internal errors; R11 (owned by C17) abandons the run"),
  "C16": ("round-trip / type-exact transport oracle over generated JSON values; before/after context comparison for purity; exhaustive access-form enumeration for hiding", "Generated values through every stage of a two-task pipeline in both languages and all reference forms with persist/restore; mutating-expression shapes for purity; exhaustive internal-name access forms.", "strings with expression/comment delimiters and lone surrogates are outside the domain"),
  "C20": ("round-trip oracle for the inline parameter grammar + twin-definition differential (long form vs generated shorthand combination) with lock-step conducting", "Inline rendering of generated documented values parsed back type-exactly; twins composed, inspected and conducted in lock-step under one history with equal offers, contexts, errors, output.", "documented value grammar only; strings that are valid JSON object texts are not expressible inline as strings"),
  "C18": ("stateful generation + temporal invariant over consecutive persisted states", "Append-only / frozen-record invariant over serialize()['state'] after every call of generated histories.", "with-items rerun reuses its record by design"),
